@@ -273,8 +273,9 @@ pub struct PtSpec {
     pub frame_pause: Option<(u8, u32, u8)>,
     /// Which intermediate status codes the terminal shows: 0 = the usual four, 1 = unusual ones (41,
     /// 4B, 9C, D2 ...), 2 = 00 / FF, 3 = a mix.
+    /// 4 + c = every intermediate status shows code c (0..=255).
     #[serde(default)]
-    pub status_codes: u8,
+    pub status_codes: u16,
     /// Time-out byte (BCD minutes) inside the intermediate statuses; None = absent.
     #[serde(default)]
     pub intermediate_timeout: Option<u8>,
@@ -290,6 +291,17 @@ pub struct PtSpec {
     /// code and a text behind its result code (06 1E c 06 { 1F16, 1F17 }).
     #[serde(default)]
     pub decorated: u8,
+    /// The abort of a reversal (06 23 / 06 25 of a commit / cancel) names a receipt number in BMP 87
+    /// (2.10.1 form) that is neither FFFF nor the transaction's own.
+    #[serde(default)]
+    pub reversal_abort_receipt: Option<u16>,
+    /// The terminal (or a bridge in front of it) closes the connection cleanly after every completed
+    /// exchange outside the handshake: every further command needs a new connection.
+    #[serde(default)]
+    pub close_after_each_exchange: bool,
+    /// Every frame of a handshake (registration, identity) is this many milliseconds late.
+    #[serde(default)]
+    pub handshake_pace_ms: u32,
 }
 
 // ---------------------------------------------------------------- state
@@ -474,7 +486,11 @@ impl PtShared {
         };
         if self.spec.rich_status {
             s.expiry = Some(2405);
-            s.card_seq = Some(1);
+            s.card_seq = Some(*r.pick(&[0u64, 1, 99, 255, 256, 1000, 9999]));
+            s.pan = Some(vec![0x55, 0x98, 0x84, 0x55, 0x55, 0x54, 0x80, 0x74]);
+            s.track2 = Some(vec![0x12, 0x34, 0xd2, 0x40, 0x5f]);
+            // turnover number: its low digits look like BMP numbers (04, 22, 87, 88 ...)
+            s.turnover = Some(*r.pick(&[1u64, 4, 104, 122, 223, 327, 429, 549, 660, 787, 888, 999_999, 870_231]));
             s.card_type = Some(0x60);
             s.aid = Some(*b"750071\0\0");
             s.vu = Some(*b"804011926      ");
@@ -583,6 +599,9 @@ impl PtConn {
         // (the handshake is not paced: how long a client gives the handshake as a whole is its own choice)
         if !at_ack && !self.cur_handshake {
             delay += pt.spec.pace_ms as u64;
+        }
+        if !at_ack && self.cur_handshake {
+            delay += pt.spec.handshake_pace_ms as u64;
         }
         let dp = pt.delay_pct;
         if dp > 0 && pt.drng.pct(dp) {
@@ -832,7 +851,8 @@ impl PtConn {
         let decorated = pt.spec.decorated;
         let pre = move |out: &mut Vec<Emit>, n: u8| {
             for i in 0..n {
-                let code = match codes_kind % 4 {
+                let code = match if codes_kind >= 4 { 4 } else { codes_kind } {
+                    4 => (codes_kind - 4) as u8,
                     0 => 0x0e + i % 4,
                     1 => [0x41u8, 0x4b, 0x9c, 0xd2, 0x1c, 0x68][(i % 6) as usize],
                     2 => [0x00u8, 0xff][(i % 2) as usize],
@@ -876,7 +896,9 @@ impl PtConn {
         match pkt.cf {
             (0x06, 0x00) => {
                 let tid = pt.spec.terminal_id.parse::<u64>().unwrap_or(0);
-                out.push(plain(rc::completion_with(Some(0x10), Some(tid), pkt_currency(pkt))));
+                // (a terminal that books in a currency of its own says so here, too)
+                let cur = pt.spec.status_currency.map(|c| c as u64).or(pkt_currency(pkt));
+                out.push(plain(rc::completion_with(Some(0x10), Some(tid), cur)));
             }
             (0x0f, 0xa1) => {
                 // the identity check of a handshake is answered truthfully (faults on it come from the
@@ -970,6 +992,13 @@ impl PtConn {
                             reversed: pt.spec.bmp_reversed,
                             ..rc::Status::default()
                         };
+                        if pt.spec.rich_status {
+                            // what else the status information of a card reading may carry as BMPs
+                            st.card_seq = Some(*pt.srng.pick(&[0u64, 1, 99, 255, 256, 1000, 9999]));
+                            st.expiry = Some(2405);
+                            st.card_type = Some(0x60);
+                            st.pan = Some(vec![0x55, 0x98, 0x84, 0x55, 0x55, 0x54, 0x80, 0x74]);
+                        }
                         if !no_tlv {
                             let apps_v: Option<Vec<(Option<Vec<u8>>, Option<Vec<u8>>)>> =
                                 apps.as_ref().map(|v| v.iter().map(|a| (h(&a.aid), h(&a.ctype))).collect());
@@ -1075,7 +1104,7 @@ impl PtConn {
                     (EndSpec::Abort(c), form) if form > 0 => {
                         let mut body = vec![c];
                         if form != 4 {
-                            body.extend(rc::bcd(currency, 2));
+                            body.extend(rc::bcd(pt.spec.status_currency.map(|c| c as u64).unwrap_or(currency), 2));
                         }
                         if form >= 2 {
                             let mut t = match form {
@@ -1205,7 +1234,10 @@ impl PtConn {
                             pt.requests[req].status_sent = Some(s);
                         }
                         prints(&mut out, o.prints);
-                        end(&mut out, o.end, Effect::Release { receipt, amount: release });
+                        match (o.end, pt.spec.reversal_abort_receipt) {
+                            (EndSpec::Abort(c), Some(r)) if r != receipt => out.push(plain(rc::abort(c, rc::AbortExtra::Receipt(r)))),
+                            _ => end(&mut out, o.end, Effect::Release { receipt, amount: release }),
+                        }
                     }
                 }
             }
@@ -1230,7 +1262,10 @@ impl PtConn {
                         out.push(plain(rc::status_info(&s)));
                     }
                     prints(&mut out, o.prints);
-                    end(&mut out, o.end, Effect::Reverse { receipt });
+                    match (o.end, pt.spec.reversal_abort_receipt) {
+                        (EndSpec::Abort(c), Some(r)) if r != receipt => out.push(plain(rc::abort(c, rc::AbortExtra::Receipt(r)))),
+                        _ => end(&mut out, o.end, Effect::Reverse { receipt }),
+                    }
                 }
             }
             _ => {
@@ -1372,14 +1407,18 @@ impl Terminal for PtConn {
             match st {
                 St::AwaitAck { rest, req, completes } => {
                     if frame[..] == rc::ACK {
-                        let during = {
+                        let (during, close_now) = {
                             let pt = self.pt.lock().unwrap();
                             let f = &pt.requests[req].frame;
-                            (f[0], f[1])
+                            ((f[0], f[1]), pt.spec.close_after_each_exchange && !pt.requests[req].handshake)
                         };
                         if rest.is_empty() {
                             self.st = St::Idle;
-                            if self.close_when_idle {
+                            if close_now {
+                                io.note(format!("terminal closes c{} after the exchange", self.conn));
+                                self.closed_idle = true;
+                                io.close(CloseKind::Eof);
+                            } else if self.close_when_idle {
                                 self.close_when_idle = false;
                                 self.closed_idle = true;
                                 io.close(CloseKind::Eof);
